@@ -125,6 +125,11 @@ func c01Renames(w *world) map[string]string {
 
 type c01Params struct {
 	W []wParams `json:"w"`
+	// Cuts: instead of running W as given, run W[0] once to learn the transcript and then once for
+	// every single cut position of either direction (sharded).
+	Cuts    bool `json:"cuts,omitempty"`
+	Shard   int  `json:"shard,omitempty"`
+	NShards int  `json:"nshards,omitempty"`
 }
 
 func c01Run(j vs.Job) *vs.JobResult {
@@ -132,6 +137,29 @@ func c01Run(j vs.Job) *vs.JobResult {
 	j.Decode(&p)
 	r := &vs.JobResult{Outcomes: map[string]int64{}}
 	states := map[uint64]struct{}{}
+	if p.Cuts {
+		base := p.W[0]
+		w0, res0 := runWorld(base, vs.Config{}, nil, nil, nil)
+		if v := c01Oracle(w0, res0, true); v != "" {
+			r.Violate("c01:"+base.String(), base.String()+": "+v, nil)
+			return r
+		}
+		p.W = nil
+		k := 0
+		for _, d := range []struct {
+			name string
+			n    int
+		}{{"c2s", len(w0.c2s[0].Written)}, {"s2c", len(w0.s2c[0].Written)}} {
+			for off := 1; off < d.n; off++ {
+				if k%p.NShards == p.Shard {
+					c := base
+					c.Seg = fmt.Sprintf("cut:%s:%d", d.name, off)
+					p.W = append(p.W, c)
+				}
+				k++
+			}
+		}
+	}
 	for _, wp := range p.W {
 		if j.Deadline > 0 && time.Now().Unix() > j.Deadline {
 			r.Capped = "deadline"
@@ -292,6 +320,41 @@ func init() {
 					e = len(cfgs)
 				}
 				jobs = append(jobs, vs.MkJob(fmt.Sprintf("batch %d-%d", i, e), c01Params{W: cfgs[i:e]}))
+			}
+			// every single cut of the whole transcript, both directions, on a core of configurations
+			core := []wParams{
+				{Dir: "up", Tree: "small3"},
+				{Dir: "down", Tree: "small3", Relays: 1},
+			}
+			if tier == "thorough" {
+				core = append(core,
+					wParams{Dir: "up", Tree: "dir", Directory: true, Relays: 1},
+					wParams{Dir: "down", Tree: "dir", Directory: true, Protocol: 3},
+					wParams{Dir: "up", Tree: "small3", Binary: true, EscapeAll: true},
+					wParams{Dir: "down", Tree: "small3", Binary: true},
+					wParams{Dir: "up", Tree: "small3", WinNL: "server"},
+					wParams{Dir: "down", Tree: "small3", WinNL: "client", Protocol: 2},
+				)
+			}
+			// more files (and more archive entries) than the process may hold open at once
+			for _, dir := range []string{"up", "down"} {
+				fd := []wParams{
+					{Dir: dir, Tree: "many:300", FdLimit: 100},
+					{Dir: dir, Tree: "manydir:300", Directory: true, FdLimit: 100},
+					{Dir: dir, Tree: "manydir:300", Directory: true, Overwrite: true, FdLimit: 100},
+				}
+				if tier == "thorough" {
+					fd = append(fd, wParams{Dir: dir, Tree: "many:300", FdLimit: 100, Protocol: 2}, wParams{Dir: dir, Tree: "many:300", FdLimit: 100, Protocol: 1},
+						wParams{Dir: dir, Tree: "many:300", FdLimit: 100, Relays: 1}, wParams{Dir: dir, Tree: "manydir:300", Directory: true, Protocol: 3, FdLimit: 100})
+				}
+				for _, c := range fd {
+					jobs = append(jobs, vs.MkJob("fd "+c.String(), c01Params{W: []wParams{c}}))
+				}
+			}
+			for _, c := range core {
+				for sh := 0; sh < 8; sh++ {
+					jobs = append(jobs, vs.MkJob(fmt.Sprintf("cuts %s %d/8", c.String(), sh), c01Params{W: []wParams{c}, Cuts: true, Shard: sh, NShards: 8}))
+				}
 			}
 			return jobs
 		},
